@@ -232,6 +232,14 @@ def run_case(case, rec, mon=None):
                             f.seek(0)
                             info["access"] = "stream_temporary_file"
                         rec.count("streams_that_are_real_files_without_a_path_name")
+                    elif case["idx"] % 6 == 0:
+                        # the SPHERE file is not at the start of the stream (it follows something else: another file, an archive
+                        # member's header); the stream stands where the NIST header begins
+                        lead = bytes(rng.integers(0, 256, int(rng.choice([1, 7, 512, 1024, 3001])), dtype=np.uint8))
+                        f = io.BytesIO(lead + blob)
+                        f.seek(len(lead))
+                        info["access"] = "stream_positioned_behind_%d_other_bytes" % len(lead)
+                        rec.count("streams_whose_header_is_not_at_offset_0")
                     mon.register(f, expected=want, warn=warn, info=info)
                     try:
                         U.read_signal(f, dtype=dt, force_as="sph")
